@@ -809,7 +809,7 @@ def main(chk):
                 'propagation, declared columns, read/write twice with the package class compared HDU by HDU; met_to_string/string_to_met_utc against the calendar model. '
                 'non-trivial = ≥ 2 axes and weighted / data present / > 1 event / fractional second')
     chk.assumptions = TRUSTED
-    chk.lean(['IxpeVerif.Props.C19', 'IxpeVerif.Props.StateAudit'])
+    chk.lean(['IxpeVerif.Props.C19', 'IxpeVerif.Props.Audit.C19'])
     known_findings(chk)
     explore(chk)
     return chk.finish(level='proof', trusted=TRUSTED, search=lambda k: explore(chk, 3, 'C19-search', lean=False))
